@@ -101,6 +101,28 @@ pub async fn start(config: HttpConfig, system: SharedSystem) -> SocketAddr {
     }
 }
 
+/// The application that `start` serves, without a listener: the simulator calls it in-process
+/// (feature `iggy_verif`). CORS, metrics and the expired-token cleaner task are left out.
+#[cfg(feature = "iggy_verif")]
+pub async fn verif_router(config: HttpConfig, system: SharedSystem) -> Router {
+    let app_state = build_app_state(&config, system).await;
+    Router::new()
+        .merge(system::router(app_state.clone(), &config.metrics))
+        .merge(personal_access_tokens::router(app_state.clone()))
+        .merge(users::router(app_state.clone()))
+        .merge(streams::router(app_state.clone()))
+        .merge(topics::router(app_state.clone()))
+        .merge(consumer_groups::router(app_state.clone()))
+        .merge(consumer_offsets::router(app_state.clone()))
+        .merge(partitions::router(app_state.clone()))
+        .merge(messages::router(app_state.clone()))
+        .layer(DefaultBodyLimit::max(
+            config.max_request_size.as_bytes_u64() as usize,
+        ))
+        .layer(middleware::from_fn_with_state(app_state.clone(), jwt_auth))
+        .layer(middleware::from_fn(request_diagnostics))
+}
+
 async fn build_app_state(config: &HttpConfig, system: SharedSystem) -> Arc<AppState> {
     let tokens_path;
     let persister;
